@@ -98,6 +98,7 @@ MLFIRST = [  # list-valued fields whose FIRST element spans several lines (the s
     "try: pass\nexcept (A,\n  B): pass\nexcept C: pass",
     "match s:\n case [1,\n  2]: pass\n case _: pass",
     "f(g(\n  1), *h, k=2)\nimport a.\\\n b as c, d",
+    "global a, b, c, d, e\ndef f():\n    nonlocal p, q, r, s\n    del t, u[0], v.w, x",
 ]
 PROGS = BASE + EXTRA + TRICKY + PARS + LOCS + MULTILINE + FSTRDBG + DECOS + MLFIRST
 for _p in PROGS:
